@@ -75,7 +75,7 @@ def printer(chk, facts):
         n += 1
         chk.ob(rule_c, lab, bool(hit), "child %s is printed (%s)" % (lab, sorted({s[0] for s in hit}) or "never: it disappears from the printed policy"),
                where=f.where(hit[0][3] if hit else None), fn=f.name, key="%s:%s" % (rule_c, lab), sample={"child": lab, "modes": sorted({s[0] for s in hit})})
-    chk.floor(rule_c, "children of ExprNoExt", n, 46)
+    chk.floor(rule_c, "children of ExprNoExt", n, 42)
     # operand order: first child printed before the later ones
     for v in r["variants"]:
         fl = [x[0] for x in v["fields"] if any(m in x[1] for m in MARK)]
